@@ -5,7 +5,8 @@
    the voxel record with both zooms z; expand_eid = transform.ConvertExtendedSpatialIDToSpatialIDs; voxel_id = transform.GetVoxelIDfromSpatialID;
    inR i p = the point p (normalised coordinates) lies in the half-open box of voxel i. *)
 From Coq Require Import ZArith String List Bool Permutation Reals Lia.
-From SID Require Import Base Str Ids Voxel ZoomCore Notation.
+From SIDGen Require Generated.
+From SID Require Import Base Str Ids Voxel ZoomCore GenEqZoom Notation.
 Import ListNotations.
 Open Scope Z_scope.
 
@@ -71,11 +72,20 @@ Print Assumptions C10_extended_to_spatial_error_iff_arity.
 Theorem C10_parse_of_ID : forall i, fields_ok i = true -> new_eid (print_eid i) = Ok i.
 Proof. exact new_eid_ID. Qed.
 Print Assumptions C10_parse_of_ID.
-Theorem C10_ID_of_parse : forall s i, new_eid s = Ok i -> new_eid (print_eid i) = Ok i /\ field_params i = [eh i; ex i; ey i; ev i; ef i].
+Theorem C10_ID_of_parse : forall s i, new_eid s = Ok i -> new_eid (print_eid i) = Ok i.
 Proof. exact ID_new_eid. Qed.
 Print Assumptions C10_ID_of_parse.
 
-(* ---- 7. expansion of an extended ID into spatial IDs ---- *)
+(* ---- 7. expansion of an extended ID into spatial IDs (theorems about the model expand_eid; the model is tied to the Go function by the
+           differential run for zoom differences d <= 6 (horizontal) / d <= 12 (vertical), and its two integer kernels are tied to the Go
+           source for ALL arguments by regeneration) ---- *)
+(* the per-axis kernels used by the model are the functions regenerated from integrate/change_zoom.go on every run: an edit of
+   HorizontalZoomMinMax or of the bounds of VerticalZoom in /repo breaks this obligation of C10 *)
+Theorem C10_zoom_kernels_are_the_regenerated_ones :
+  (forall zin x y zout, Generated.HorizontalZoomMinMax zin x y zout = hzoom_minmax zin x y zout) /\
+  (forall zin f zout, Generated.VerticalZoom_minmax zin f zout = vzoom_minmax zin f zout).
+Proof. exact (conj gen_HorizontalZoomMinMax_eq gen_VerticalZoom_minmax_eq). Qed.
+Print Assumptions C10_zoom_kernels_are_the_regenerated_ones.
 (* the string function as written is the record function printed *)
 Theorem C10_expansion_strings_are_records : forall i, expand_eid i = map print_sid (expand_rec i).
 Proof. exact expand_eid_rec. Qed.
@@ -149,6 +159,10 @@ Print Assumptions C10_parse_print_holds_of_model.
 Theorem C10_checker_expansion : forall s obs, check_expand s obs = true <-> expand_spec s obs.
 Proof. exact check_expand_sound. Qed.
 Print Assumptions C10_checker_expansion.
+(* the variant used at run time (accepts an output equal to the model's list without re-parsing it) decides the same statement *)
+Theorem C10_checker_expansion_fast : forall s obs, check_expand_fast s obs = true <-> expand_spec s obs.
+Proof. exact check_expand_fast_sound. Qed.
+Print Assumptions C10_checker_expansion_fast.
 (* hence, for an accepted output: no duplicates, count, zoom, exact partition of the input's region *)
 Theorem C10_accepted_expansion_is_partition : forall s i o, parse_eid s = Some i -> valid i -> expand_spec s (Some o) ->
   NoDup o /\ length o = Z.to_nat (expand_count i) /\
@@ -158,7 +172,7 @@ Theorem C10_accepted_expansion_is_partition : forall s i o, parse_eid s = Some i
                          inR j p -> inR k p -> n = m).
 Proof. exact expand_spec_consequences. Qed.
 Print Assumptions C10_accepted_expansion_is_partition.
-Theorem C10_expansion_holds_of_model : forall s, expand_spec s (res_opt (expand_api s)).
+Theorem C10_expansion_holds_of_model : forall s, on_grid s -> expand_spec s (res_opt (expand_api s)).
 Proof. exact expand_model_spec. Qed.
 Print Assumptions C10_expansion_holds_of_model.
 Theorem C10_checker_expansion_sequence : forall l obs, check_expand_seq l obs = true <-> Forall2 expand_spec l obs.
@@ -171,8 +185,9 @@ Theorem C10_voxel_id_holds_of_model : forall s, voxel_spec s (voxel_id s).
 Proof. exact voxel_model_spec. Qed.
 Print Assumptions C10_voxel_id_holds_of_model.
 
-(* ---- 10. one object reset several times: after a successful reset the object is determined by the last string alone (no stale field);
-            a failed reset reports an error ---- *)
+(* ---- 10. one object reset several times, ON THE MODEL (reset_seq; the first theorem unfolds its definition — the tie to the Go code is
+            the differential run of the ResetSequence entry): after a successful reset the object is determined by the last string alone
+            (no stale field); a failed reset reports an error ---- *)
 Theorem C10_reset_sequence_no_stale_state : forall st l,
   Forall2 (fun s o => match parse_eid s with Some i => o = (false, i) | None => fst o = true end) l (reset_seq st l).
 Proof. exact reset_seq_no_stale_state. Qed.
@@ -185,13 +200,9 @@ Theorem C10_reset_sequence_holds_of_model : forall st l,
 Proof. exact reset_seq_model_spec. Qed.
 Print Assumptions C10_reset_sequence_holds_of_model.
 
-(* ---- 11. the setters of the object: each writes exactly its own field(s); setters of distinct fields commute; after the four setters
-            ID() prints the five set values in the order hZoom/x/y/vZoom/z whatever the object held before ---- *)
-Theorem C10_setter_writes_its_field_only : forall st x y z h v,
-  apply_setter st (SX x) = mk (eh st) x (ey st) (ev st) (ef st) /\ apply_setter st (SY y) = mk (eh st) (ex st) y (ev st) (ef st) /\
-  apply_setter st (SZ z) = mk (eh st) (ex st) (ey st) (ev st) z /\ apply_setter st (SZoom h v) = mk h (ex st) (ey st) v (ef st).
-Proof. exact setter_fields. Qed.
-Print Assumptions C10_setter_writes_its_field_only.
+(* ---- 11. the setters of the object, ON THE MODEL (apply_setter = record update; these two facts unfold the model's definition and say
+            nothing about the Go code by themselves — the tie is the differential run of the ObjectSetters entry, whose checker is below):
+            setters of distinct fields commute; after the four setters ID() prints the five set values in the order hZoom/x/y/vZoom/z ---- *)
 Theorem C10_setters_commute : forall st c d, setter_field c <> 4%nat -> setter_field d <> 4%nat -> setter_field c <> setter_field d ->
   apply_setter (apply_setter st c) d = apply_setter (apply_setter st d) c.
 Proof. exact setters_commute. Qed.
@@ -236,7 +247,9 @@ Example C10_zoom_dropping_changes_region :
 Proof. exact e2s_changes_region_when_zooms_differ. Qed.
 Example C10_voxel_id_examples :
   voxel_id "25/29803148/13212522/25/-7" = [29803148; 13212522; -7] /\
-  voxel_id "1/x/99999999999999999999/1/-99999999999999999999/9/9" = [0; 2 ^ 63 - 1; - 2 ^ 63] /\ voxel_id "1/2/3/4" = [].
+  voxel_id "1/x/99999999999999999999/1/-99999999999999999999/9/9" = [0; 2 ^ 63 - 1; - 2 ^ 63] /\ voxel_id "1/2/3/4" = [] /\
+  voxel_id "1/99999999999999999999x/-99999999999999999999 /1/18446744073709551616_" = [2 ^ 63 - 1; - 2 ^ 63; 2 ^ 63 - 1] /\
+  voxel_id "1/18446744073709551615x/9223372036854775808x/1/9223372036854775808" = [0; 0; 2 ^ 63 - 1].
 Proof. vm_compute. repeat split; reflexivity. Qed.
 (* x, y beyond 2^31 at zoom 35 and vertical indices near the ends of the grid / of int64 survive parse-then-print *)
 Example C10_nonvacuous_wide_fields :
